@@ -464,6 +464,7 @@ func crashDuringRecovery(l *loaded, ic imgCase, scratch string, i int) (out []d2
 		defer st.Close()
 		if life2 {
 			defer func() {
+				j.Mark("life2-begin", 0, [32]byte{})
 				r2 := rand.New(rand.NewPCG(ic.Seed^0x11fe2, uint64(ic.P)))
 				for k, nk := 0, 4+r2.IntN(8); k < nk; k++ {
 					ctx, cancel := context.WithTimeout(context.Background(), 20*time.Second)
@@ -566,6 +567,7 @@ func crashDuringRecovery(l *loaded, ic imgCase, scratch string, i int) (out []d2
 	// crash point (it must have survived the first recovery, and must survive the second), what was issued before
 	// it, and the acknowledgements / issued ids of the second life at their positions in its own journal
 	var l2 *loaded
+	life2At := n2 // journal index at which the second life begins
 	if life2 {
 		l2 = &loaded{tr: t2, tf: l.tf, recs: map[uint64]*ledger.Rec{}, issued: map[uint64]map[[32]byte]int{}}
 		for _, a := range l.acks {
@@ -589,6 +591,8 @@ func crashDuringRecovery(l *loaded, ic imgCase, scratch string, i int) (out []d2
 				continue
 			}
 			switch e.Kind {
+			case "life2-begin":
+				life2At = k
 			case "issued":
 				if l2.issued[e.ID] == nil {
 					l2.issued[e.ID] = map[[32]byte]int{}
@@ -637,7 +641,7 @@ func crashDuringRecovery(l *loaded, ic imgCase, scratch string, i int) (out []d2
 			ic2 := ic
 			ic2.P = p2
 			d.Problems, d.Branch, _, _ = recoverAndCheck(l2, ic2, dir)
-			d.Life2 = true
+			d.Life2 = p2 > life2At // a cut inside the recovery part of the journal is a crash during recovery
 		} else {
 			d.Problems, d.Branch, _, _ = recoverAndCheck(l, ic, dir)
 		}
